@@ -105,5 +105,40 @@ PROPS = {
     ),
 }
 
+def attr_group(*gks):
+    def f(ev, names):
+        return fam(ev, "g") and ev.get("gk") in gks
+    return f
+
+
+PROPS["C20"] = dict(
+    mc=[("MC_Round", None)],
+    drivers=[("modes", "TraceRel"), ("rel", "TraceRel")],
+    attr=attr_group("modes", "mono", "swap", "subneg", "mirror", "scale"),
+    rule="groups of recorded executions of one case (8 modes + default; swapped / negated / scaled operands; ascending "
+         "Round operands) compared with each other by TraceRel.tla, which imports no arithmetic oracle; distinct = distinct groups",
+    technique="TLA+ relational trace validation (TraceRel.tla) of grouped real-code executions; RoundOnce bracket theorems model-checked (MC_Round); TLAPS kernel lemma",
+)
+
+PROPS["C03"] = dict(
+    mc=[],
+    drivers=[("traps", "TraceRel")],
+    attr=attr_group("traps", "errdec"),
+    rule="each case is executed under the empty trap set and under 32 (thorough: sampled cases under all 4095) trap sets; "
+         "TraceRel.tla checks the trap relation between the recorded outcomes; ErrDecimal edges/histories validated against ErrDec.tla",
+)
+PROPS["C05"] = dict(
+    mc=[],
+    drivers=[("alias", "TraceRel")],
+    attr=attr_group("alias"),
+    rule="each case is executed once per aliasing pattern with real pointer identity; all recorded outcomes must be identical",
+)
+PROPS["C06"] = dict(
+    mc=[],
+    drivers=[("pre", "TraceRel")],
+    attr=attr_group("pre"),
+    rule="each case is executed into 7 destination pre-states; all recorded outcomes must be identical; operands unchanged",
+)
+
 HOOK_COMMITS = []
 NOT_YET = {}
